@@ -30,18 +30,18 @@ func decodeRuneBytes(b []byte) (rune, int) { return utf8.DecodeRune(b) }
 
 // Shared is the read-only state shared by all workers of one engine run.
 type Shared struct {
-	Prog       *ssa.Program
-	Pkgs       map[string]*ssa.Package
-	RepoDir    string
-	MaxSteps   int
-	trackFuncs bool
-	Params     map[string]int
-	Known      map[string]bool // known-finding classes in force
-	embeds     map[string]string // "pkgpath.Var" -> file content
-	Solver     string
-	TimeoutMs  int
-	Seed       int
-	Trace      bool
+	Prog         *ssa.Program
+	Pkgs         map[string]*ssa.Package
+	RepoDir      string
+	MaxSteps     int
+	trackFuncs   bool
+	Params       map[string]int
+	Known        map[string]bool   // known-finding classes in force
+	embeds       map[string]string // "pkgpath.Var" -> file content
+	Solver       string
+	TimeoutMs    int
+	Seed         int
+	Trace        bool
 	HarnessFiles []string
 	Summarize    map[string]bool // functions summarised as pure callees
 	LazySummary  bool            // explore summarised callees without feasibility checks (usually slower)
@@ -161,14 +161,14 @@ type Stats struct {
 }
 
 type pool struct {
-	mu       sync.Mutex
-	cond     *sync.Cond
-	work     [][]Decision
-	active   int
-	stats    *Stats
-	seenFind map[string]bool
-	maxPaths int
-	stop     bool
+	mu           sync.Mutex
+	cond         *sync.Cond
+	work         [][]Decision
+	active       int
+	stats        *Stats
+	seenFind     map[string]bool
+	maxPaths     int
+	stop         bool
 	samplesAsked int
 }
 
